@@ -35,6 +35,7 @@ def meta(tier, seed):
         "bounds": {"rows": [7, 9] if tier == "quick" else [7, 9, 10], "arms": "[1,2,3] with arm 3 never observed",
                    "test_size": [0.34, 0.5] if tier == "quick" else [0.25, 0.34, 0.5], "batch_size": "0..|test|",
                    "kinds": ["%s/%s" % k for k in KINDS],
+                   "n_jobs": "1; additionally 2 (joblib model) for eg0/knn, ucb/rad, ucb/lsh",
                    "companions": "ucb/rad and eg0/knn additionally as the second bandit after %r" % sorted(COMPANIONS)},
         "assumptions": ["LSH neighbourhood statistics reported by the simulator are taken as input (C11 and C15 cover LSH)"],
     }
@@ -51,6 +52,11 @@ def shards(tier, seed):
         for comp in COMPANIONS:
             for pattern in ("alt", "blocks", "late2"):
                 out.append({"ln": ln, "nn": nn, "pattern": pattern, "tier": tier, "seed": 71 + seed, "companion": comp})
+    # bandits that partition their predictions over two jobs (joblib model): the account of each test row must
+    # still be that row's
+    for ln, nn in (("eg0", "knn"), ("ucb", "rad"), ("ucb", "lsh")):
+        for pattern in ("alt", "blocks", "late2"):
+            out.append({"ln": ln, "nn": nn, "pattern": pattern, "tier": tier, "seed": 71 + seed, "n_jobs": 2})
     return A.heavy_first(out)
 
 
@@ -271,9 +277,17 @@ def data3(n, pattern):
 
 
 def run_shard(shard):
+    if shard.get("n_jobs", 1) > 1:
+        from .. import sched
+        with sched.model():
+            return _run_shard(shard)
+    return _run_shard(shard)
+
+
+def _run_shard(shard):
     from .c15 import param_space
     ln, nn, tier = shard["ln"], shard["nn"], shard["tier"]
-    cfg = A.config(ln, nn, arms=[1, 2, 3], seed=shard["seed"])
+    cfg = A.config(ln, nn, arms=[1, 2, 3], seed=shard["seed"], n_jobs=shard.get("n_jobs", 1))
     if ln == "tsb":
         cfg["lp"] = ["ThompsonSampling", {"binarizer": "bin_ge1"}]
     acc = report.Acc(ID, replay, shard)
@@ -287,7 +301,7 @@ def run_shard(shard):
                 acc.skip("batch size rejected by the Simulator (larger than its bound)")
                 continue
             acc.traces += 1
-            key = (ln, nn, n, shard["pattern"], str(params), shard.get("companion"))
+            key = (ln, nn, n, shard["pattern"], str(params), shard.get("companion"), shard.get("n_jobs", 1))
             acc.state(key)
             if isinstance(res, list):
                 msgs, info = res, {}
@@ -310,6 +324,11 @@ def run_shard(shard):
 
 
 def replay(w):
+    if w["cfg"].get("n_jobs", 1) > 1:
+        from .. import sched
+        with sched.model():
+            res = judge(w["cfg"], w["dec"], w["rew"], w["X"], w["params"], w.get("companion"))
+        return [] if res is None else (res if isinstance(res, list) else res[0])
     res = judge(w["cfg"], w["dec"], w["rew"], w["X"], w["params"], w.get("companion"))
     if res is None:
         return []
